@@ -60,6 +60,8 @@ BIN_FORMS = [
     ("leftjux", "({A} {F})({B})"), ("rightsect", "{F}({B})({A})"), ("rightsect_probe", "{F}({B})"),
     # sections mixed with splats: a real splat after a hole, a hole after a real splat
     ("sect_then_splat", "{F}(_, ...[{B}])({A})"), ("splat_then_sect", "{F}(...[{A}], _)({B})"), ("bang_sect_splat", "({F} ! _, ...[{B}])({A})"),
+    # op-assignment through an index, and with the assigned variable / slot itself as the right operand (judged when A and B are the same value)
+    ("opassign_idx", "x := [{A}]; x[0] {F}= {B}; x[0]"), ("opassign_self", "x := {A}; x {F}= x; x"), ("opassign_idx_self", "x := [{A}]; x[0] {F}= x[0]; x[0]"),
 ]
 UN_FORMS = [("call", "{F}({A})"), ("bang", "{F} ! {A}"), ("dot", "{A} . {F}"), ("then", "{A} then {F}"), ("callsect", "{F}(_)({A})"),
             ("apply", "[{A}] apply {F}"), ("of", "{F} of [{A}]"), ("splat", "{F}(...[{A}])"), ("dotgt", "{A} .> {F}"), ("ltdot", "{F} <. {A}")]
@@ -183,7 +185,7 @@ def judge(case, rs):
     out = []
     src = dict(zip([n for n, _ in forms], case.steps))
     for name, r in res.items():
-        if name in ("rightsect", "rightsect_probe", "leftjux", "opassign", "last2", "last2_probe", "last2_then", "last2_map"):
+        if name in ("rightsect", "rightsect_probe", "leftjux", "opassign", "opassign_idx", "opassign_self", "opassign_idx_self", "last2", "last2_probe", "last2_then", "last2_map"):
             continue
         o = outcome_(r)
         if o is None:
@@ -198,12 +200,13 @@ def judge(case, rs):
             if o is not None and o != base:
                 out.append(Violation("C04 fn=%s arity=2 form=leftjux vs call: %s/%s" % (m["fn"], o[0], base[0]),
                                      "%s -> %s but %s -> %s" % (src["leftjux"], short(res["leftjux"]), src["call"], short(res["call"])), base, o))
-        o = outcome_(res["opassign"])
-        if m["fn"][-1] in "<>=!" or (m["fn"] + "=") in fns():
-            o = None    # `x <= b` is the operator <=, not `<` op-assignment
-        if o is not None and base[0] == "ok" and o != base:
-            out.append(Violation("C04 fn=%s arity=2 form=opassign vs call: %s/%s" % (m["fn"], o[0], base[0]),
-                                 "%s -> %s but %s -> %s" % (src["opassign"], short(res["opassign"]), src["call"], short(res["call"])), base, o))
+        for oname in ("opassign", "opassign_idx") + (("opassign_self", "opassign_idx_self") if a == b else ()):
+            o = outcome_(res[oname])
+            if m["fn"][-1] in "<>=!" or (m["fn"] + "=") in fns():
+                o = None    # `x <= b` is the operator <=, not `<` op-assignment
+            if o is not None and base[0] == "ok" and o != base:
+                out.append(Violation("C04 fn=%s arity=2 form=%s vs call: %s/%s" % (m["fn"], oname, o[0], base[0]),
+                                     "%s -> %s but %s -> %s" % (src[oname], short(res[oname]), src["call"], short(res["call"])), base, o))
         probe = res["rightsect_probe"]
         if base[0] == "ok" and probe.get("st") == "ok" and isinstance(probe.get("v"), list) and probe["v"][0] == "F":
             o = outcome_(res["rightsect"])
